@@ -727,7 +727,7 @@ TIME_NAMES = {'shoc_standard': 't', 'shoc_simple': 'time'}
 
 
 def add_depth(rng, ds, *, dim='k', n=None, name=None, up=None, deep_first=None, positive=None, bounds=None,
-              second=None, marker=None, second_name=None, int_dtype=None):
+              second=None, marker=None, second_name=None, int_dtype=None, crossing=False):
     """Add a depth dimension with one (or two) coordinates.  The physical column is `phys` (eighths of a metre,
     positive down, surface first); the file stores it negated when `up` and reversed when `deep_first`.
     positive: 'attr' (attribute says up/down), 'none' (no positive attribute - the code guesses from the values).
@@ -750,6 +750,10 @@ def add_depth(rng, ds, *, dim='k', n=None, name=None, up=None, deep_first=None, 
     edges = [lo]
     for s in steps:
         edges.append(edges[-1] + 2 * s)
+    if crossing:
+        # heights about a datum inside the column: one thick layer far on the other side of zero, so that most values have one
+        # sign and their mean has the other (only the count of signs decides the guessed direction of an unlabelled axis)
+        edges[0] = -2000
     phys = [(edges[i] + edges[i + 1]) // 2 for i in range(n)]          # eighths
     pb = [(edges[i], edges[i + 1]) for i in range(n)]
 
